@@ -77,7 +77,7 @@ type obs struct {
 const (
 	screenStack   = 64 << 20 // bytes: native stack limit while screening (a confirmation run uses Go's default 1 GB)
 	heapGuard     = 5 << 30  // bytes of live heap objects at which the worker gives up (inconclusive)
-	caseWatchdog  = 45 * time.Second
+	caseWatchdog  = 20 * time.Second // 3x for cases that run with the default stack (deep nesting, deep data)
 	markerOOM     = "VERIF-C03-MEMORY-GUARD"
 	markerHang    = "VERIF-C03-WATCHDOG"
 	stagesFile    = "stages.txt"
@@ -89,6 +89,7 @@ var (
 	stageF     *os.File
 	caseSeq    atomic.Int64
 	caseBegan  atomic.Int64 // unix nanos of the running case's start; 0 = idle
+	caseLimit  atomic.Int64 // watchdog limit of the running case in nanos
 	curStackSz = defaultStackB
 )
 
@@ -101,8 +102,8 @@ func procInit() {
 			sample := []metrics.Sample{{Name: "/memory/classes/heap/objects:bytes"}}
 			for {
 				time.Sleep(50 * time.Millisecond)
-				if b := caseBegan.Load(); b != 0 && time.Now().UnixNano()-b > int64(caseWatchdog) {
-					fmt.Fprintf(os.Stderr, "\n%s case #%d exceeded %s\n", markerHang, caseSeq.Load(), caseWatchdog)
+				if b := caseBegan.Load(); b != 0 && time.Now().UnixNano()-b > caseLimit.Load() {
+					fmt.Fprintf(os.Stderr, "\n%s case #%d exceeded %s\n", markerHang, caseSeq.Load(), time.Duration(caseLimit.Load()))
 					os.Exit(98)
 				}
 				metrics.Read(sample)
@@ -200,6 +201,11 @@ func worker(kind string, data json.RawMessage) any {
 		curStackSz = want
 	}
 	caseSeq.Add(1)
+	if want == defaultStackB {
+		caseLimit.Store(int64(3 * caseWatchdog))
+	} else {
+		caseLimit.Store(int64(caseWatchdog))
+	}
 	caseBegan.Store(time.Now().UnixNano())
 	defer caseBegan.Store(0)
 
